@@ -49,7 +49,7 @@ Step ==
        [] ev = "died" -> /\ Viol(r.how, r.msg) /\ nviol' = nviol + 1
                          /\ UNCHANGED <<scen, pushed, popped, glen, sdrain, sdone>>
        [] ev = "cend" ->
-            LET bad == r.drained /\ popped # pushed IN
+            LET bad == "drained" \in DOMAIN r /\ r.drained /\ popped # pushed IN
             /\ (bad => Viol("conc_lost", <<Cardinality(pushed \ popped), Cardinality(pushed)>>))
             /\ nviol' = IF bad THEN nviol + 1 ELSE nviol
             /\ UNCHANGED <<scen, pushed, popped, glen, sdrain, sdone>>
